@@ -4,7 +4,7 @@ from vlib.runner import Case
 
 PID = "C13"
 PROPS = ["Props/C13.v"]
-GEN = []
+GEN = ['LexConst.v']
 MODEL_IS_SPEC = False
 RULE = ("query strings: random code points (ASCII, Latin-1, BMP, non-BMP) of length 0-1024, token soup over the query alphabet, near-miss mutants of valid queries, "
         "bracket/parenthesis/filter nesting up to depth 32 (balanced and off by one), huge number literals; every string is compiled; those that compile are evaluated on a "
